@@ -334,8 +334,75 @@ def on_auto(p, r, exc, acc):
 
 
 
+# ------------------------------------------------------------------ `local` inside a def written in an inline <%namespace> tag
+def localns_sources(levels, where):
+    src = {}
+    for j in range(levels):
+        t = ""
+        if j < levels - 1:
+            t += '<%%inherit file="/d%d/t%d"/>' % (j + 1, j + 1)
+        if j == where:
+            t += '<%namespace name="ns"><%def name="d()">${local.uri}</%def></%namespace>'
+        t += "L%d(" % j + ("ns.d=${ns.d()} " if j == where else "") + "local=${local.uri}" + (" ${next.body()}" if j > 0 else "") + ")"
+        src["/d%d/t%d" % (j, j)] = t
+    return src
+
+
+def localns_expected(levels, where):
+    out = ""
+    for j in range(levels):
+        out = "L%d(" % j + ("ns.d=/d%d/t%d " % (j, j) if j == where else "") + "local=/d%d/t%d" % (j, j) + ((" " + out) if j > 0 else "") + ")"
+    return out
+
+
+def localns_run(LKm, levels, where):
+    lk = LKm.TemplateLookup()
+    for k, v in localns_sources(levels, where).items():
+        lk.put_string(k, v)
+    try:
+        return lk.get_template("/d0/t0").render()
+    except Exception as e:
+        return "raised %s: %s" % (type(e).__name__, str(e)[:80])
+
+
+def h_localns(p):
+    levels = 1 + p.choose(3, "chain_length")
+    where = p.choose(levels, "template_with_the_inline_namespace")
+    return dict(levels=levels, where=where, got=localns_run(LK, levels, where))
+
+
+def on_localns(p, r, exc, acc):
+    if exc is not None:
+        acc.candidate(kind="harness-exception", input=None, detail="%s: %s" % (type(exc).__name__, str(exc)[:200]))
+        return
+    acc.tags["ran"] += 1
+    acc.vcs += 1
+    want = localns_expected(r["levels"], r["where"])
+    if r["got"] != want:
+        acc.candidate(kind="local-in-inline-namespace", input=dict(localns=dict(levels=r["levels"], where=r["where"])), detail="rendered %r, `local` is the template itself: %r" % (r["got"], want))
+    else:
+        acc.good("local-in-inline-namespace", dict(localns=dict(levels=r["levels"], where=r["where"])))
+    acc.sample(dict(levels=r["levels"], where=r["where"], output=r["got"]))
+
+
+
 def make_replay(c):
     i = c["input"] or {}
+    if "localns" in i:
+        body = """
+sys.path.insert(0, "/verif")
+CASE = __CASE__
+import mako.lookup as LK
+from props import C06
+lv, wh = CASE["localns"]["levels"], CASE["localns"]["where"]
+for k, v in C06.localns_sources(lv, wh).items(): print("---", k); print(v)
+got, want = C06.localns_run(LK, lv, wh), C06.localns_expected(lv, wh)
+print("rendered  :", got); print("documented:", want)
+bad = None if got == want else "`local` inside a def of an inline <%namespace> is not the template the def is written in"
+print("VIOLATED: " + bad if bad else "HOLDS")
+sys.exit(1 if bad else 0)
+""".replace("__CASE__", repr(i))
+        return (c["kind"], body, repr(sorted(i["localns"].items())))
     if "autohandler" in i:
         body = """
 sys.path.insert(0, "/verif")
@@ -403,6 +470,8 @@ sys.exit(1 if bad else 0)
 
 def classify(c):
     i = c.get("input") or {}
+    if "localns" in i:
+        return "C06-local-in-inline-namespace-of-an-inherited-template"
     if any(isinstance(fl, dict) and fl.get("names") == "namespace-attributes" for fl in (i.get("flags") or [])):
         return "C06-member-named-like-namespace-attribute"
     return None
@@ -438,6 +507,8 @@ def run(check, tier):
                  dict(depth=D, wrappers=list(WRAP)), ("ran",)))
     jobs.append(("C06-autohandler", h_auto, on_auto, "inheritance through an expression: mako.ext.autohandler over three directory levels, request orders, "
                  "filesystem_checks on / off", dict(levels=3, orders=len(ORDERS)), ("ran",)))
+    jobs.append(("C06-localns", h_localns, on_localns, "`local` inside a def written in an inline <%namespace> tag of any template of a chain of 1-3",
+                 dict(chain=3), ("ran",)))
     jobs.append(("C06-extras", h_extras, on_extras, "include inside an inheritance chain; body() arguments", dict(flags=7), ("ran",)))
     for j in jobs:
         driver.register(j[0], j[1], j[2])
